@@ -1385,6 +1385,8 @@ class StmtMixin:
                 return self.st_copy(e, env, ctx, cont)
             if e[0] == "if":
                 return self.st_if(e, env, ctx, cont)
+            if e[0] == "match":
+                return self.st_match(e, env, ctx, cont)
             if e[0] == "block":
                 return self.run(e[1] + ([("expr", e[2])] if e[2] else []), env, ctx,
                                 lambda env2: cont(self.restore(env2, env, ctx)))
@@ -1675,6 +1677,57 @@ class StmtMixin:
         b = self.run(stm(els), dict(env), ctx, fin)
         merged = f"if {p} then ({a.lean}) else ({b.lean})"
         ok = conj(c.ok, f"(if {p} then {a.ok or 'True'} else {b.ok or 'True'})" if (a.ok or b.ok) else None)
+        if len(names) == 1:
+            binds = [(env[names[0]][1], merged)]
+        else:
+            tn = self.tmp()
+            binds = [(tn, merged)] + self.unpack(names, tn, env)
+        return self.let_in(binds, cont(env), ok)
+
+    def st_match(self, e, env, ctx, cont):
+        """`match x { E::A => s1, E::B => s2 }` as a statement: over every variant of a field-less enum, the arms
+        only assigning locals; joined like an `if` statement"""
+        _, scrut, arms = e
+        if has_return(e) or has_node(e, ("break", "continue", "try")):
+            raise ShapeError(f"{ctx.what}: a `match` statement with an early exit is outside the subset")
+        sv = self.tr(scrut, env, ctx)
+        ty = self.res(sv.ty)
+        if ty[0] != "enum" or ty[1] not in self.items.enums or any(p for _, p in self.items.enums[ty[1]]):
+            raise ShapeError(f"{ctx.what}: statement `match` on {self.show(ty)} is outside the subset")
+        if not re.match(r"^[A-Za-z0-9_.]+$", sv.lean):
+            raise ShapeError(f"{ctx.what}: statement `match` on a compound expression is outside the subset")
+        variants = [vn for vn, _p in self.items.enums[ty[1]]]
+        seen = []
+        for pat, guard, _b in arms:
+            if guard is not None or pat[0] != "ppath" or pat[1][-1] not in variants or pat[1][-1] in seen or \
+                    (len(pat[1]) > 1 and pat[1][-2] != ty[1]):
+                raise ShapeError(f"{ctx.what}: this arm of a `match` statement is outside the subset")
+            seen.append(pat[1][-1])
+        if set(seen) != set(variants):
+            raise ShapeError(f"{ctx.what}: a `match` statement must list every variant of {ty[1]}")
+        names = self.state_vars(("x", [b for _p, _g, b in arms]), env, ctx)
+        if not names:
+            raise ShapeError(f"{ctx.what}: a `match` statement without effect on local variables is outside the subset")
+
+        def stm(b):
+            if b[0] == "block":
+                return b[1] + ([("expr", b[2])] if b[2] is not None else [])
+            return [("expr", b)]
+
+        def fin(env2):
+            return V(self.tuple_of(names, env2, ctx), ("unit",))
+        merged, okc, any_ok = "", "", False
+        for idx, (pat, _g, body) in enumerate(arms):
+            cond, _binds = self.pat_cond(pat, sv, ctx)
+            a = self.run(stm(body), dict(env), ctx, fin)
+            any_ok = any_ok or a.ok is not None
+            if idx == len(arms) - 1:
+                merged += f"({a.lean})"
+                okc += a.ok or "True"
+            else:
+                merged += f"if {cond} then ({a.lean}) else "
+                okc += f"if {cond} then {a.ok or 'True'} else "
+        ok = conj(sv.ok, f"({okc})" if any_ok else None)
         if len(names) == 1:
             binds = [(env[names[0]][1], merged)]
         else:
